@@ -276,6 +276,19 @@ fn digest(prop: &str, tier: Tier, seed: u64, runs: u64, index: u64, of: u64) {
             let v = c.evaluate(&mut stats);
             discarded |= matches!(v, Verdict::Discarded(_));
             parts.push(rng::hash_bytes(format!("{v:?}").as_bytes()));
+            if std::env::var("VERIF_DIGEST_DEBUG").is_ok() {
+                let n = parts.len();
+                eprintln!(
+                    "digest-debug run {run} case {} case_hash={:016x} result={:016x} verdict={:016x} exit={:?} steps={} verdict_text={}",
+                    n / 3 - 1,
+                    parts[n - 3],
+                    parts[n - 2],
+                    parts[n - 1],
+                    r.exit,
+                    r.steps,
+                    format!("{v:?}").chars().take(300).collect::<String>()
+                );
+            }
         }
         // a content dropped by the wall-clock pre-screen is the one place where real time can
         // influence a run; such runs carry no verdict and are left out of the comparison
